@@ -59,6 +59,14 @@ impl HtmlFilterBodyAction {
         let mut data = self.last_buffer.clone();
         data.extend(input);
 
+        // A chunk can end in the middle of a multi-byte character: keep its first bytes for the next chunk.
+        // Any other invalid sequence is an error, reported before anything is consumed
+        let incomplete_char = match std::str::from_utf8(data.as_slice()) {
+            Ok(_) => Vec::new(),
+            Err(error) if error.error_len().is_none() => data.split_off(error.valid_up_to()),
+            Err(_) => return Err(html::HtmlParseError::from(String::from_utf8(data).unwrap_err()).into()),
+        };
+
         let mut tokenizer = html::Tokenizer::new(data);
         let mut to_return = "".to_string();
 
@@ -68,6 +76,7 @@ impl HtmlFilterBodyAction {
             if token_type == html::TokenType::ErrorToken {
                 self.last_buffer = tokenizer.raw();
                 self.last_buffer.extend(tokenizer.buffered());
+                self.last_buffer.extend(incomplete_char);
 
                 break;
             }
@@ -81,6 +90,7 @@ impl HtmlFilterBodyAction {
                     self.last_buffer = token_data.into_bytes();
                     self.last_buffer.extend(tokenizer.raw());
                     self.last_buffer.extend(tokenizer.buffered());
+                    self.last_buffer.extend(incomplete_char);
 
                     return Ok(to_return.into_bytes());
                 }
